@@ -221,9 +221,11 @@ class Parser(with_metaclass(_ParserMeta, Node)):
         self._debug = d
         return self
 
+    _ABSENT = object()
+
     @staticmethod
     def _accumulate(first, rest):
-        results = [first] if first else []
+        results = [] if first is Parser._ABSENT else [first]
         if rest:
             results.extend(rest)
         return results
@@ -233,7 +235,7 @@ class Parser(with_metaclass(_ParserMeta, Node)):
         Return a parser that matches zero or more instances of the current
         parser separated by instances of the parser sep.
         """
-        return Lift(self._accumulate) * Opt(self) * Many(sep >> self)
+        return Lift(self._accumulate) * Opt(self, Parser._ABSENT) * Many(sep >> self)
 
     def until(self, pred):
         """
